@@ -224,8 +224,8 @@ def views_rule(rep, prog):
 def run(rep, tier, replay=None):
     prog = facts.load("std")
     run_, oks, errs = decode_paths(prog, 14)
-    latest_wins(rep, prog, oks)
-    pairing_rule(rep, prog, oks)
+    tracker.alt_passes(rep, tier, oks, lambda: latest_wins(rep, prog, oks))
+    tracker.alt_passes(rep, tier, oks, lambda: pairing_rule(rep, prog, oks))
     views_rule(rep, prog)
     rep.assume("map iteration is analysed for one arbitrary element (the loop body is the same for every element)")
     rep.assume("the history-level ordering claims follow from the per-frame facts by induction (not mechanised)")
